@@ -68,6 +68,7 @@ m('c16_no_queue_shutdown', 'C16', S, "        if self.event_queue:\n            
 # ---- C17
 m('c17_wal_before_handlers', 'C17', S, "        await self._execute_handlers(event, handlers=applicable_handlers, timeout=timeout)\n\n        await self._default_log_handler(event)\n        await self._default_wal_handler(event)\n", "        await self._default_wal_handler(event)\n        await self._execute_handlers(event, handlers=applicable_handlers, timeout=timeout)\n\n        await self._default_log_handler(event)\n", 'WAL written before handlers')
 m('c17_skip_nested', 'C17', S, "        if not self.wal_path:\n            return None\n", "        if not self.wal_path or event.event_parent_id:\n            return None\n", 'nested events not logged')
+m('c17_wal_error_escapes', 'C17', S, "            logger.error(f'❌ {self} Failed to save event {event.event_id} to WAL file: {type(e).__name__} {e}\\n{event}')\n", "            logger.error(f'❌ {self} Failed to save event {event.event_id} to WAL file: {type(e).__name__} {e}\\n{event}')\n            raise\n", 'a failing WAL write aborts the processing of the event')
 # ---- C18
 m('c18_no_finally', 'C18', S, "            if event_key in self.handlers and notify_expect_handler in self.handlers[event_key]:", "            if event_key in self.handlers and notify_expect_handler in self.handlers[event_key] and future.done() and not future.cancelled():", 'subscription kept on timeout/cancel')
 m('c18_include_or_predicate', 'C18', S, "            include = lambda e, orig=original_include, pred=predicate: orig(e) and pred(e)", "            include = lambda e, orig=original_include, pred=predicate: orig(e) or pred(e)", 'include OR predicate')
